@@ -204,7 +204,10 @@ func concExec(t *testing.T, p *Plan, co concOpts) *concResult {
 		ev.Ret = sim.Stamp()
 		if err != nil {
 			ev.Err = err.Error()
-			if !(co.allowErrAfterClose && closeInvokedBefore) && !(co.allowErrAfterClose && op.K == "close") {
+			// C10: an operation that loses the race with Close may fail; it lost the race if some Close
+			// had been invoked by the time it returned (not only by the time it was invoked)
+			lostToClose := closeInvokedBefore || cr.closeInv != 0
+			if !(co.allowErrAfterClose && lostToClose) && !(co.allowErrAfterClose && op.K == "close") {
 				fail(violf("api-error", "task %d %s: %v", task, op, err))
 			}
 		}
